@@ -54,6 +54,20 @@ theorem lookup_some_mem (k : Key) (xs : List Cell) (v : String) (h : lookup k xs
       obtain ⟨d, hd, hdk⟩ := ih h
       exact ⟨d, by simp [hd], hdk⟩
 
+theorem lookup_isSome_of_mem (c : Cell) (xs : List Cell) (h : c ∈ xs) :
+    ∃ v, lookup c.key xs = some v := by
+  induction xs with
+  | nil => simp at h
+  | cons d ds ih =>
+    simp only [lookup]
+    by_cases hk : d.key = c.key
+    · exact ⟨d.v, by simp [hk]⟩
+    · simp only [hk, if_false]
+      simp only [List.mem_cons] at h
+      rcases h with rfl | h
+      · exact absurd rfl hk
+      · exact ih h
+
 /-- lookup-equivalence of two cell lists: every key reads the same. -/
 def Equiv (xs ys : List Cell) : Prop := ∀ k, lookup k xs = lookup k ys
 
